@@ -136,6 +136,15 @@ CLAIMED = {
                   'without effect; plus a bounded comparison against the real ssh -G.',
              ref='4/C18, 9', note='shlex tokenizer only bounded-checked; known findings F-C18-2 (Host a,b) and F-C18-3 '
                   '(trailing # comment) recorded; Include not under contract'),
+ 'C19': dict(text='Proof on the stream session buffer code: read(n)/readexactly/read-to-EOF, readuntil (literal and newline '
+                  'separators: the result ends in the first match, search window finds matches spanning chunk boundaries), '
+                  'readline return the next units of the stream offered since lock acquisition with nothing lost, duplicated or '
+                  'reordered, buffer-length accounting and no empty chunk left, flow-control invariant at every await and return, '
+                  'drain returns only when writable (re-checked after every wake-up) or raises when the connection is gone, '
+                  'connection_lost markers, collect_output accounting, exit status stored before the notification.',
+             ref='4/C19, 9', note='awaits are cut points with a rely (tail-append only, monotone EOF/lost flags); regex and '
+                  'multi-separator readuntil delegated to re with a bounded stand-in over all chunkings (not counted); '
+                  'redirection to OS-level targets, communicate/wait ordering and str mode not decided; AnyStr instantiated at bytes'),
  'C20': dict(text='Proof of the relay invariant out ++ _inpbuf == in over SSHForwarder/SSHLocalForwarder (early data before EOF, '
                   'EOF forwarded once, half-close, close closes both), the permission decision tables of direct-tcpip / '
                   'tcpip-forward / streamlocal (key and certificate restrictions, permitopen incl. wildcard port, owner result), '
